@@ -948,6 +948,8 @@ def run(cx, rep):
     converter_typestate_rule(cx, rep, "C04.6", sccs_all=None)
     rep.rule("C04.8", "a vector indexed by the counter of a counted loop is as long as the loop's bound")
     counted_index_rule(cx, rep, "C04.8")
+    # ---------------------------------------------------------------- C04.9
+    guarded_lookup_rule(cx, rep, "C04.9")
     rep.rule("C04.7", "an Anchor pairs a span with the file the span was read in (syntax and its file travel together)")
     anchor_colocation_rule(cx, rep, "C04.7")
 
@@ -1467,3 +1469,169 @@ def counted_index_sites(F, select):
                        "%s indexes `%s` with the counter of a loop whose bound is not tied to that vector's length (%s): when the bound exceeds the length the compiler aborts with an index-out-of-bounds panic instead of answering" % (g, strip(x["e"]).get("name") or "?", why or "no guard, no padding"),
                        "%s:%s" % (f.file, x["line"]), {"fn": g}))
     return out
+
+
+# ---------------------------------------------------------------------------------------------------- C04.9
+def _strip(e):
+    while isinstance(e, dict) and e.get("k") in ("AddrOf", "DropTemps", "Deref", "Unary") and isinstance(e.get("e"), dict) and not (e.get("k") == "Unary" and e.get("op") == "Not"):
+        e = e["e"]
+    if isinstance(e, dict) and e.get("k") == "BlockExpr" and not e["block"].get("stmts") and e["block"].get("expr"):
+        return _strip(e["block"]["expr"])
+    if isinstance(e, dict) and e.get("k") == "MethodCall" and e.get("method") in ("clone", "as_ref", "borrow", "to_owned", "as_str", "deref") and not e.get("args"):
+        return _strip(e["recv"])
+    return e
+
+
+def _local(e):
+    e = _strip(e)
+    return e.get("lid") if isinstance(e, dict) and e.get("k") == "Path" and e.get("res") == "local" else None
+
+
+def _chain_root(e):
+    """the collection local an iterator chain starts from: C.iter().filter(..).map(..) -> lid of C"""
+    e = _strip(e)
+    while isinstance(e, dict) and e.get("k") == "MethodCall":
+        e = _strip(e["recv"])
+    return _local(e) if isinstance(e, dict) else None
+
+
+def guarded_lookup_rule(cx, rep, rid):
+    """`map.get(k).expect(..)` / `.unwrap()` on every element `map` of a collection C panics for the first element that
+    lacks `k`.  Such a lookup is justified only by a test that EVERY element of C has the key, made with the same C
+    and the same k on every path to the lookup: `C.iter().all(|it| it.contains_key(&k))` known true (enclosing `if`,
+    or an earlier `if !.. { continue / return }`), in the function itself or - when C and k are parameters - at every
+    call site of the function, for the arguments passed there (followed through callers, two levels).  The seeded change
+    C04-l replaced the test by a `filter_map(|it| it.get(&k))` that silently skips the elements lacking the key while
+    the callee still unwraps: `{kind: "a"} | {kind: "b"} | {other: string}` made the compiler panic."""
+    F = cx.rs
+    rep.rule(rid, "a lookup that must succeed for every element of a collection is preceded by a test that every element has the key")
+    from facts import walk as hwalk, children
+    fns = [g for g in F.hir if F.fns.get(g) is not None and F.fns[g].crate != WASM and "/src/print/" in (F.fns[g].file or "") and F.fns[g].kind != "Closure"]
+    # per function: sites [(node, C lid, K lid)], facts established at nodes, calls with argument locals
+    info = {}
+    for g in fns:
+        tree = F.hir[g]
+        params = [p.get("lid") if p["k"] == "P.Binding" else None for p in tree["params"]]
+        lets = {}
+        for n in hwalk(tree["body"]):
+            if n["k"] == "LetStmt" and n["pat"]["k"] == "P.Binding" and n.get("init") is not None:
+                lets[n["pat"].get("lid")] = n["init"]
+        def resolve(e, depth=3):
+            e = _strip(e)
+            l = _local(e)
+            while l is not None and l in lets and depth > 0:
+                e = _strip(lets[l])
+                l = _local(e)
+                depth -= 1
+            return e
+        def guard_of(e):
+            """(C, K) if e is `C.iter().all(|it| it.contains_key(&K))`, also through a bool local"""
+            e = resolve(e)
+            if not (isinstance(e, dict) and e.get("k") == "MethodCall" and e.get("method") == "all" and e.get("args")):
+                return None
+            cl = _strip(e["args"][0])
+            if cl.get("k") != "Closure" or not cl.get("params"):
+                return None
+            pl = [q.get("lid") for q in hwalk(cl["params"][0]) if q["k"] == "P.Binding"]
+            b = _strip(cl["body"])
+            if b.get("k") == "MethodCall" and b.get("method") == "contains_key" and _local(b["recv"]) in pl and b.get("args"):
+                return (canon(_chain_root(e["recv"])), canon(_local(b["args"][0])))
+            return None
+        def canon(l, depth=3):
+            # a local that is a plain alias / clone / reference of another local stands for it
+            while l is not None and l in lets and depth > 0:
+                l2 = _local(lets[l])
+                if l2 is None:
+                    break
+                l, depth = l2, depth - 1
+            return l
+        sites, calls = [], []
+        def leaves(b):
+            return any(x["k"] in ("Ret", "Break", "Continue") for x in hwalk(b))
+        def visit(n, facts, elem_of):
+            k = n.get("k")
+            if k in ("BlockExpr",):
+                return visit(n["block"], facts, elem_of)
+            if k == "Block":
+                cur = set(facts)
+                for st in n.get("stmts") or []:
+                    visit(st, cur, elem_of)
+                    e = st.get("e") if st["k"] in ("ExprStmt", "Semi") else None
+                    e = _strip(e) if e else None
+                    if e is not None and e.get("k") == "If" and not e.get("else"):
+                        c = _strip(e["cond"])
+                        if c.get("k") == "Unary" and c.get("op") == "Not" and leaves(e["then"]):
+                            gk = guard_of(c["e"])
+                            if gk:
+                                cur = cur | {gk}
+                if n.get("expr") is not None:
+                    visit(n["expr"], cur, elem_of)
+                return
+            if k == "If":
+                visit(n["cond"], facts, elem_of)
+                gk = guard_of(n["cond"]) if n["cond"].get("k") != "Let" else None
+                visit(n["then"], facts | ({gk} if gk else set()), elem_of)
+                if n.get("else"):
+                    visit(n["else"], facts, elem_of)
+                return
+            if k == "MethodCall" and n.get("args") and any(_strip(a).get("k") == "Closure" for a in n["args"]):
+                root = canon(_chain_root(n["recv"]))
+                visit(n["recv"], facts, elem_of)
+                for a in n["args"]:
+                    a2 = _strip(a)
+                    if a2.get("k") == "Closure":
+                        eo = dict(elem_of)
+                        if root is not None:
+                            for prm in a2.get("params") or []:
+                                for q in hwalk(prm):
+                                    if q["k"] == "P.Binding":
+                                        eo[q.get("lid")] = root
+                        visit(a2["body"], facts, eo)
+                    else:
+                        visit(a, facts, elem_of)
+                return
+            if k == "MethodCall" and n.get("method") in ("expect", "unwrap"):
+                r = _strip(n["recv"])
+                if r.get("k") == "MethodCall" and r.get("method") == "get" and "BTreeMap" in (r.get("callee") or "") and r.get("args"):
+                    m = _local(r["recv"])
+                    kk = canon(_local(r["args"][0]))
+                    if m in elem_of and kk is not None:
+                        sites.append((n, elem_of[m], kk, set(facts)))
+            if k == "Call":
+                tg = F._callee_gid(F.fns[g].crate, n.get("callee") or "")
+                if tg in F.hir:
+                    calls.append((n, tg, [canon(_local(a)) for a in n["args"]], set(facts)))
+            for c in children(n):
+                visit(c, facts, elem_of)
+        visit(tree["body"], set(), {})
+        info[g] = (params, sites, calls)
+    n_sites = 0
+    def discharged(g, C, K, facts, depth, trail):
+        if (C, K) in facts:
+            return True, None
+        params = info[g][0]
+        if C in params and K in params and depth > 0:
+            ci, ki = params.index(C), params.index(K)
+            callers = [(h, c) for h in info for c in info[h][2] if c[1] == g]
+            if not callers:
+                return False, "no caller of %s establishes it" % g
+            for h, (cn, _tg, args, cf) in callers:
+                if ci >= len(args) or ki >= len(args) or args[ci] is None or args[ki] is None:
+                    return False, "the call at %s:%s passes something other than plain locals" % (F.fns[h].file, cn.get("line"))
+                ok, why = discharged(h, args[ci], args[ki], cf, depth - 1, trail + [h])
+                if not ok:
+                    return False, why or "the call of %s in %s (line %s) is not under `<collection>.iter().all(|it| it.contains_key(&<key>))` for the arguments it passes" % (g.rsplit("::", 1)[-1], h, cn.get("line"))
+            return True, None
+        return False, None
+    for g in sorted(info):
+        params, sites, calls = info[g]
+        for node, C, K, facts in sites:
+            n_sites += 1
+            ok, why = discharged(g, C, K, facts, 2, [g])
+            rep.ob(rid, "%s/get-expect" % g.rsplit("::", 1)[-1], ok,
+                   "%s unwraps `<element>.get(<key>)` for every element of a collection, but no test that EVERY element has the key dominates it (%s): an element without the key makes the compiler panic" % (
+                       g, why or "no `<collection>.iter().all(|it| it.contains_key(&<key>))` known true here or at the call sites"),
+                   "%s:%s" % (F.fns[g].file, node.get("line")), sample={"fn": g, "facts_here": len(facts)})
+    # no floor: a tree without such lookups (Option-propagating helpers instead) satisfies the rule; the seeded change
+    # C04-l keeps the matcher alive in the thorough tier
+    rep.ob(rid, "scan", True, sample={"must_succeed_lookups_found": n_sites, "functions_scanned": len(info)})
